@@ -52,6 +52,8 @@ Inductive act :=
        CREATE/CREATE2; then as for ACall *)
 | ASelfdestruct (ben : addr)                (* PUSH20 ben SELFDESTRUCT *)
 | ANop (n : N)                              (* n times JUMPDEST *)
+| AIf (k v : N) (neg : bool) (n : nat)      (* PUSH32 v PUSH32 k SLOAD EQ [ISZERO] PUSH2 dest JUMPI: skip the next n actions when
+                                               (storage[k] = v) xor neg; dest is the JUMPDEST of the ANop that follows them *)
 | AStop                                     (* STOP *)
 | AReturn (c : N)                           (* c = 0: PUSH1 0 PUSH1 0 RETURN; else
                                                PUSH2 len PUSH2 off PUSH1 0 CODECOPY PUSH2 len PUSH1 0 RETURN *)
@@ -75,7 +77,7 @@ Definition code_len (p : prog) (c : N) : N :=
 
 Record gastab := mkGas {
   (* constantGas of the jump table rows the compiled actions use *)
-  g_push : N; g_pop : N; g_jumpi : N; g_jumpdest : N; g_codecopy : N;
+  g_push : N; g_pop : N; g_jumpi : N; g_jumpdest : N; g_codecopy : N; g_sload : N; g_eq : N; g_iszero : N;
   g_call : N; g_callcode : N; g_delegate : N; g_static : N;
   g_create : N; g_create2 : N; g_sstore : N; g_log : N; g_selfdestruct : N;
   g_return : N; g_revert : N; g_stop : N;
@@ -88,7 +90,10 @@ Record gastab := mkGas {
   p_log : N; p_logtopic : N; p_logdata : N; p_copy : N; p_sha3word : N;
   p_create : N; p_createdata : N; p_maxcode : N;
   p_selfdestruct : N; p_createbysd : N; p_suicideref : N;
-  p_memgas : N; p_quad : N
+  p_memgas : N; p_quad : N;
+  (* behaviour probed by the translator: does CreateAccount carry over the balance of an
+     object that an earlier Finalise of the block has deleted? *)
+  p_resurrect : bool
 }.
 
 (* one row of the jump table as dumped by the translator:
@@ -104,12 +109,22 @@ Fixpoint sget (k : N) (m : smap) : N :=
 Fixpoint sdel (k : N) (m : smap) : smap :=
   match m with [] => [] | (k', v) :: r => if N.eqb k k' then sdel k r else (k', v) :: sdel k r end.
 Definition sset (k v : N) (m : smap) : smap := (k, v) :: sdel k m.
+Fixpoint sfind (k : N) (m : smap) : option N :=
+  match m with [] => None | (k', v) :: r => if N.eqb k k' then Some v else sfind k r end.
 
-(* stateObject: data.Nonce, data.Balance, code (as id), dirty+pending+origin storage
-   as seen by GetState, the committed storage as seen by GetCommittedState, suicided *)
+(* stateObject: data.Nonce, data.Balance, code (as id), the three storage layers
+   dirtyStorage (written in this transaction), pendingStorage (written by earlier
+   transactions of the block, parked there by Finalise), originStorage + storage trie
+   (the value at block start; absent = 0), and the suicided flag *)
 Record account := mkAcct {
-  a_nonce : N; a_bal : N; a_code : N; a_stor : smap; a_orig : smap; a_dead : bool }.
-Definition fresh : account := mkAcct 0 0 0 [] [] false.     (* newObject(db, addr, Account{}) *)
+  a_nonce : N; a_bal : N; a_code : N; a_dirty : smap; a_pend : smap; a_trie : smap; a_dead : bool }.
+Definition fresh : account := mkAcct 0 0 0 [] [] [] false.     (* newObject(db, addr, Account{}) *)
+(* stateObject.GetCommittedState: pending first, then origin / trie *)
+Definition o_committed (x : account) (k : N) : N :=
+  match sfind k (a_pend x) with Some v => v | None => sget k (a_trie x) end.
+(* stateObject.GetState: dirty first *)
+Definition o_state (x : account) (k : N) : N :=
+  match sfind k (a_dirty x) with Some v => v | None => o_committed x k end.
 
 Definition amap := list (addr * account).
 Fixpoint alookup (a : addr) (m : amap) : option account :=
@@ -126,17 +141,25 @@ Inductive jentry :=
 | JSuicide (a : addr) (prev : bool) (prevbal : N)
 | JBalance (a : addr) (prev : N)
 | JNonce (a : addr) (prev : N)
-| JStorage (a : addr) (prev : smap)             (* storageChange{key, prevalue}: the model keeps the
-                                                   previous map of the object, which determines prevalue *)
+| JStorage (a : addr) (prev : smap)             (* storageChange{key, prevalue}: the model keeps the previous
+                                                   dirty map of the object; putting it back reads like
+                                                   dirtyStorage[key] = prevalue because prevalue was read
+                                                   through dirty -> pending -> origin when it was recorded *)
+| JResetDel (a : addr)                          (* resetObjectChange{prev} with prev deleted by an earlier Finalise *)
 | JCode (a : addr) (prev : N)
 | JRefund (prev : N)
 | JLog                                          (* addLogChange *)
 | JTouch (a : addr).
 
-Record state := mkSt { accts : amap; logs : list log (* newest first *); refund : N; jrnl : list jentry (* newest first *) }.
+(* accts: the live objects (stateObjects entries that are not deleted, together with the
+   accounts of the trie); graves: objects marked deleted by a Finalise of this block -
+   getStateObject does not see them, getDeletedStateObject does *)
+Record state := mkSt { accts : amap; logs : list log (* newest first *); refund : N; jrnl : list jentry (* newest first *);
+                       graves : amap }.
 
-Definition with_accts (m : amap) (s : state) := mkSt m (logs s) (refund s) (jrnl s).
-Definition push_j (e : jentry) (s : state) := mkSt (accts s) (logs s) (refund s) (e :: jrnl s).
+Definition with_accts (m : amap) (s : state) := mkSt m (logs s) (refund s) (jrnl s) (graves s).
+Definition with_jrnl (j : list jentry) (s : state) := mkSt (accts s) (logs s) (refund s) j (graves s).
+Definition push_j (e : jentry) (s : state) := with_jrnl (e :: jrnl s) s.
 Definition set_obj (a : addr) (x : account) (s : state) := with_accts (aset a x (accts s)) s.
 
 Definition get_obj (a : addr) (s : state) : option account := alookup a (accts s).   (* getStateObject *)
@@ -147,31 +170,43 @@ Definition empty (a : addr) (s : state) : bool := match get_obj a s with Some x 
 Definition get_balance (a : addr) (s : state) : N := match get_obj a s with Some x => a_bal x | None => 0 end.
 Definition get_nonce (a : addr) (s : state) : N := match get_obj a s with Some x => a_nonce x | None => 0 end.
 Definition get_code (a : addr) (s : state) : N := match get_obj a s with Some x => a_code x | None => 0 end.
-Definition get_state (a : addr) (k : N) (s : state) : N := match get_obj a s with Some x => sget k (a_stor x) | None => 0 end.
-Definition get_committed (a : addr) (k : N) (s : state) : N := match get_obj a s with Some x => sget k (a_orig x) | None => 0 end.
+Definition get_state (a : addr) (k : N) (s : state) : N := match get_obj a s with Some x => o_state x k | None => 0 end.
+Definition get_committed (a : addr) (k : N) (s : state) : N := match get_obj a s with Some x => o_committed x k | None => 0 end.
 Definition has_suicided (a : addr) (s : state) : bool := match get_obj a s with Some x => a_dead x | None => false end.
 
-(* createObject: a brand-new object replaces whatever is there *)
+(* createObject: a brand-new object replaces whatever is there; prev comes from
+   getDeletedStateObject, so it may be an object a Finalise has deleted *)
 Definition create_object (a : addr) (s : state) : state :=
   match get_obj a s with
-  | None => set_obj a fresh (push_j (JCreate a) s)
   | Some prev => set_obj a fresh (push_j (JReset a prev) s)
+  | None =>
+    match alookup a (graves s) with
+    | Some _ => set_obj a fresh (push_j (JResetDel a) s)
+    | None => set_obj a fresh (push_j (JCreate a) s)
+    end
   end.
-(* CreateAccount: the balance of an existing object is carried over (setBalance: not journaled) *)
-Definition create_account (a : addr) (s : state) : state :=
+(* CreateAccount: the balance of the previous object is carried over (setBalance: not
+   journaled).  [rz]: whether this also happens for a deleted previous object (the
+   behaviour of the running code, probed by the translator - gastab.p_resurrect) *)
+Definition create_account (rz : bool) (a : addr) (s : state) : state :=
   match get_obj a s with
-  | None => create_object a s
-  | Some prev => set_obj a (mkAcct 0 (a_bal prev) 0 [] [] false) (push_j (JReset a prev) s)
+  | Some prev => set_obj a (mkAcct 0 (a_bal prev) 0 [] [] [] false) (push_j (JReset a prev) s)
+  | None =>
+    match alookup a (graves s) with
+    | Some g => if rz then set_obj a (mkAcct 0 (a_bal g) 0 [] [] [] false) (push_j (JResetDel a) s)
+                else create_object a s
+    | None => create_object a s
+    end
   end.
 Definition get_or_new (a : addr) (s : state) : state :=
   match get_obj a s with Some _ => s | None => create_object a s end.
 Definition obj_of (a : addr) (s : state) : account := match get_obj a s with Some x => x | None => fresh end.
 
-Definition set_bal (x : account) (b : N) := mkAcct (a_nonce x) b (a_code x) (a_stor x) (a_orig x) (a_dead x).
-Definition set_nonce_f (x : account) (n : N) := mkAcct n (a_bal x) (a_code x) (a_stor x) (a_orig x) (a_dead x).
-Definition set_code_f (x : account) (c : N) := mkAcct (a_nonce x) (a_bal x) c (a_stor x) (a_orig x) (a_dead x).
-Definition set_stor_f (x : account) (m : smap) := mkAcct (a_nonce x) (a_bal x) (a_code x) m (a_orig x) (a_dead x).
-Definition set_dead_f (x : account) (d : bool) (b : N) := mkAcct (a_nonce x) b (a_code x) (a_stor x) (a_orig x) d.
+Definition set_bal (x : account) (b : N) := mkAcct (a_nonce x) b (a_code x) (a_dirty x) (a_pend x) (a_trie x) (a_dead x).
+Definition set_nonce_f (x : account) (n : N) := mkAcct n (a_bal x) (a_code x) (a_dirty x) (a_pend x) (a_trie x) (a_dead x).
+Definition set_code_f (x : account) (c : N) := mkAcct (a_nonce x) (a_bal x) c (a_dirty x) (a_pend x) (a_trie x) (a_dead x).
+Definition set_stor_f (x : account) (m : smap) := mkAcct (a_nonce x) (a_bal x) (a_code x) m (a_pend x) (a_trie x) (a_dead x).
+Definition set_dead_f (x : account) (d : bool) (b : N) := mkAcct (a_nonce x) b (a_code x) (a_dirty x) (a_pend x) (a_trie x) d.
 
 (* stateObject.SetBalance *)
 Definition set_balance (a : addr) (b : N) (s : state) : state :=
@@ -195,17 +230,17 @@ Definition set_code (a : addr) (c : N) (s : state) : state :=
 Definition set_state (a : addr) (k v : N) (s : state) : state :=
   let s1 := get_or_new a s in
   let x := obj_of a s1 in
-  if N.eqb (sget k (a_stor x)) v then s1
-  else set_obj a (set_stor_f x (sset k v (a_stor x))) (push_j (JStorage a (a_stor x)) s1).
+  if N.eqb (o_state x k) v then s1
+  else set_obj a (set_stor_f x (sset k v (a_dirty x))) (push_j (JStorage a (a_dirty x)) s1).
 Definition suicide (a : addr) (s : state) : state :=
   match get_obj a s with
   | None => s
   | Some x => set_obj a (set_dead_f x true 0) (push_j (JSuicide a (a_dead x) (a_bal x)) s)
   end.
-Definition add_log (l : log) (s : state) : state := mkSt (accts s) (l :: logs s) (refund s) (JLog :: jrnl s).
-Definition add_refund (g : N) (s : state) : state := mkSt (accts s) (logs s) (refund s + g) (JRefund (refund s) :: jrnl s).
+Definition add_log (l : log) (s : state) : state := mkSt (accts s) (l :: logs s) (refund s) (JLog :: jrnl s) (graves s).
+Definition add_refund (g : N) (s : state) : state := mkSt (accts s) (logs s) (refund s + g) (JRefund (refund s) :: jrnl s) (graves s).
 (* SubRefund panics below zero; EIP-2200 never gets there *)
-Definition sub_refund (g : N) (s : state) : state := mkSt (accts s) (logs s) (refund s - g) (JRefund (refund s) :: jrnl s).
+Definition sub_refund (g : N) (s : state) : state := mkSt (accts s) (logs s) (refund s - g) (JRefund (refund s) :: jrnl s) (graves s).
 
 (* journalEntry.revert, applied to the state whose journal has already been popped *)
 Definition undo1 (e : jentry) (s : state) : state :=
@@ -217,8 +252,9 @@ Definition undo1 (e : jentry) (s : state) : state :=
   | JNonce a n => match get_obj a s with Some x => set_obj a (set_nonce_f x n) s | None => s end
   | JStorage a m => match get_obj a s with Some x => set_obj a (set_stor_f x m) s | None => s end
   | JCode a c => match get_obj a s with Some x => set_obj a (set_code_f x c) s | None => s end
-  | JRefund r => mkSt (accts s) (logs s) r (jrnl s)
-  | JLog => mkSt (accts s) (tl (logs s)) (refund s) (jrnl s)
+  | JResetDel a => with_accts (adel a (accts s)) s
+  | JRefund r => mkSt (accts s) (logs s) r (jrnl s) (graves s)
+  | JLog => mkSt (accts s) (tl (logs s)) (refund s) (jrnl s) (graves s)
   | JTouch _ => s
   end.
 (* journal.revert: undo the k newest entries *)
@@ -227,11 +263,33 @@ Fixpoint undo_n (k : nat) (s : state) : state :=
   | O => s
   | S k' => match jrnl s with
             | [] => s
-            | e :: j => undo_n k' (undo1 e (mkSt (accts s) (logs s) (refund s) j))
+            | e :: j => undo_n k' (undo1 e (with_jrnl j s))
             end
   end.
 Definition snapshot (s : state) : nat := length (jrnl s).                 (* Snapshot: the journal length *)
 Definition revert_to (n : nat) (s : state) : state := undo_n (length (jrnl s) - n) s.   (* RevertToSnapshot *)
+
+(* Finalise(true) between the transactions of a block: every address the journal
+   marks dirty whose object is suicided or empty is deleted (it moves to the graves),
+   the others get their dirty storage parked in the pending layer; journal and refund
+   are cleared.  (resetObjectChange and the log/refund entries mark nothing dirty.) *)
+Definition dirtied (e : jentry) : option addr :=
+  match e with
+  | JCreate a | JSuicide a _ _ | JBalance a _ | JNonce a _ | JStorage a _ | JCode a _ | JTouch a => Some a
+  | JReset _ _ | JResetDel _ | JRefund _ | JLog => None
+  end.
+Definition park (x : account) : account :=                                 (* stateObject.finalise *)
+  mkAcct (a_nonce x) (a_bal x) (a_code x) [] (fold_right (fun kv p => sset (fst kv) (snd kv) p) (a_pend x) (a_dirty x)) (a_trie x) (a_dead x).
+Definition finalise1 (a : addr) (s : state) : state :=
+  match get_obj a s with
+  | None => s
+  | Some x => if a_dead x || acct_empty x
+              then mkSt (adel a (accts s)) (logs s) (refund s) (jrnl s) (aset a x (graves s))
+              else set_obj a (park x) s
+  end.
+Definition finalise (s : state) : state :=
+  let s1 := fold_right (fun e s => match dirtied e with Some a => finalise1 a s | None => s end) s (jrnl s) in
+  mkSt (accts s1) (logs s1) 0 [] (graves s1).
 
 (* core/evm.go *)
 Definition can_transfer (a : addr) (amt : N) (s : state) : bool := N.leb amt (get_balance a s).
@@ -289,7 +347,7 @@ Definition call_frame (runf : runner) (k : kind) (cx : ctx) (to : addr) (gas val
     if negb (can_transfer self value s) then mkRes Failed gas s 0 0              (* ErrInsufficientBalance *)
     else
       let snap := snapshot s in
-      let s1 := if exist to s then s else create_account to s in
+      let s1 := if exist to s then s else create_account (p_resurrect G) to s in
       let s2 := transfer self to value s1 in
       finish snap (run_code runf (mkCtx to self value (c_static cx) (c_depth cx + 1)) (get_code to s2) gas s2)
   | KCallCode =>
@@ -316,7 +374,7 @@ Definition create_frame (runf : runner) (cx : ctx) (init : N) (gas value : N) (a
     then mkRes Failed 0 s1 0 0                                                   (* ErrContractAddressCollision *)
     else
       let snap := snapshot s1 in
-      let s2 := create_account address s1 in
+      let s2 := create_account (p_resurrect G) address s1 in
       let s3 := set_nonce address 1 s2 in
       let s4 := transfer self address value s3 in
       let r := run_code runf (mkCtx address self value (c_static cx) (c_depth cx + 1)) init gas s4 in
@@ -497,6 +555,11 @@ Definition step (runf : runner) (cx : ctx) (a : act) (mem gas : N) (s : state) :
     end
   | ANop n =>
     match charge (n * g_jumpdest G) gas with Some g1 => SCont mem g1 s 0 | None => fail gas s end
+  | AIf k v neg n =>                                   (* the test itself; [run] does the skipping *)
+    match charge (3 * g_push G + g_sload G + g_eq G + (if neg then g_iszero G else 0) + g_jumpi G) gas with
+    | Some g1 => SCont mem g1 s 0
+    | None => fail gas s
+    end
   | AStop =>
     match charge (g_stop G) gas with Some g1 => SHalt (mkRes Done g1 s 0 0) | None => fail gas s end
   | AReturn c =>
@@ -534,7 +597,11 @@ Fixpoint run (fuel : nat) (cx : ctx) (acts : list act) (mem gas : N) (s : state)
     | [] => match charge (g_stop G) gas with Some g1 => mkRes Done g1 s 0 0 | None => mkRes Failed gas s 0 0 end
     | a :: rest =>
       match step (run f) cx a mem gas s with
-      | SCont mem' gas' s' b => add_burnt b (run f cx rest mem' gas' s')
+      | SCont mem' gas' s' b =>
+        let rest' := match a with
+                     | AIf k v neg n => if xorb (N.eqb (get_state (c_self cx) k s) v) neg then skipn n rest else rest
+                     | _ => rest end in
+        add_burnt b (run f cx rest' mem' gas' s')
       | SHalt r => r
       end
     end
@@ -549,32 +616,48 @@ Definition tx_create (fuel : nat) (origin : addr) (init : N) (gas value : N) (s 
 
 End EVM.
 
+(* ---- blocks: transactions on one StateDB with Finalise(true) in between -------- *)
+
+Record tx := mkTx {
+  t_create : bool;            (* false: evm.Call(origin, to, nil, gas, value); true: evm.Create(origin, code init, gas, value) *)
+  t_origin : addr; t_to : addr; t_init : N; t_gas : N; t_value : N }.
+
+Definition run_tx (G : gastab) (P : prog) (fuel : nat) (t : tx) (s : state) : res :=
+  if t_create t then tx_create G P fuel (t_origin t) (t_init t) (t_gas t) (t_value t) s
+  else tx_call G P fuel (t_origin t) (t_to t) (t_gas t) (t_value t) s.
+
+(* the state in which the next transaction starts after [txs] have run and been finalised *)
+Fixpoint block_state (G : gastab) (P : prog) (fuel : nat) (txs : list tx) (s : state) : state :=
+  match txs with
+  | [] => s
+  | t :: r => block_state G P fuel r (finalise (r_st (run_tx G P fuel t s)))
+  end.
+
 (* ---- correspondence runner ------------------------------------------------ *)
 
-(* one account as the harness sees it through the StateDB API after the call *)
+(* one account as the harness sees it through the StateDB API after a transaction (before Finalise) *)
 Record obs := mkObs { o_addr : addr; o_exists : bool; o_nonce : N; o_bal : N; o_cod : N; o_dead : bool; o_stor : list (N * N) }.
 
-(* one case: program table, initial accounts (committed), the transaction, and what
-   the implementation did *)
+(* what the implementation did in one transaction *)
+Record txobs := mkTxObs {
+  x_status : N;               (* 0 nil error, 1 errExecutionReverted, 2 any other error *)
+  x_gas : N;                  (* leftOverGas *)
+  x_refund : N;
+  x_burnt : N;                (* value destroyed by SELFDESTRUCT-to-self in surviving frames (from the tracer) *)
+  x_accts : list obs          (* every address the harness knows about, after the transaction, before Finalise *)
+}.
+
+(* one case: program table, accounts committed in the previous block, the transactions of
+   the block, and what the implementation did *)
 Record case := mkCase {
   i_prog : prog;
   i_accts : amap;
-  i_create : bool;            (* false: evm.Call(origin, to, nil, gas, value); true: evm.Create(origin, code init, gas, value) *)
-  i_origin : addr; i_to : addr; i_init : N; i_gas : N; i_value : N;
-  e_status : N;               (* 0 nil error, 1 errExecutionReverted, 2 any other error *)
-  e_gas : N;                  (* leftOverGas *)
-  e_accts : list obs;         (* every address the harness knows about *)
-  e_logs : list log;          (* oldest first *)
-  e_refund : N;
-  e_burnt : N                 (* value destroyed by SELFDESTRUCT-to-self in surviving frames (from the tracer) *)
+  i_txs : list tx;
+  e_txs : list txobs;
+  e_logs : list log           (* all logs of the block, oldest first *)
 }.
 
 Definition model_fuel : nat := N.to_nat 40000.
-
-Definition run_case (G : gastab) (c : case) : res :=
-  let s0 := mkSt (i_accts c) [] 0 [] in
-  if i_create c then tx_create G (i_prog c) model_fuel (i_origin c) (i_init c) (i_gas c) (i_value c) s0
-  else tx_call G (i_prog c) model_fuel (i_origin c) (i_to c) (i_gas c) (i_value c) s0.
 
 Definition status_code (s : status) : N := match s with Done => 0 | Reverted => 1 | Failed => 2 | OutOfFuel => 3 end.
 
@@ -591,18 +674,37 @@ Definition obs_ok (s : state) (o : obs) : bool :=
   match get_obj (o_addr o) s with
   | None => negb (o_exists o)
   | Some x => o_exists o && N.eqb (a_nonce x) (o_nonce o) && N.eqb (a_bal x) (o_bal o) && N.eqb (a_code x) (o_cod o)
-              && Bool.eqb (a_dead x) (o_dead o) && forallb (fun kv => N.eqb (sget (fst kv) (a_stor x)) (snd kv)) (o_stor o)
+              && Bool.eqb (a_dead x) (o_dead o) && forallb (fun kv => N.eqb (o_state x (fst kv)) (snd kv)) (o_stor o)
+  end.
+
+Definition tx_ok (r : res) (x : txobs) : bool :=
+  N.eqb (status_code (r_status r)) (x_status x)
+  && N.eqb (r_gas r) (x_gas x)
+  && forallb (obs_ok (r_st r)) (x_accts x)
+  && forallb (fun p => existsb (fun o => addr_eqb (fst p) (o_addr o) && o_exists o) (x_accts x)) (accts (r_st r))
+  && N.eqb (refund (r_st r)) (x_refund x)
+  && N.eqb (r_burnt r) (x_burnt x).
+
+(* runs the block; None = some transaction disagreed *)
+Fixpoint check_block (G : gastab) (P : prog) (txs : list tx) (exp : list txobs) (s : state) : option state :=
+  match txs, exp with
+  | [], [] => Some s
+  | t :: txs', x :: exp' =>
+    let r := run_tx G P model_fuel t s in
+    if tx_ok r x then
+      match txs' with
+      | [] => Some (r_st r)
+      | _ => check_block G P txs' exp' (finalise (r_st r))
+      end
+    else None
+  | _, _ => None
   end.
 
 Definition case_ok (G : gastab) (c : case) : bool :=
-  let r := run_case G c in
-  N.eqb (status_code (r_status r)) (e_status c)
-  && N.eqb (r_gas r) (e_gas c)
-  && forallb (obs_ok (r_st r)) (e_accts c)
-  && forallb (fun p => existsb (fun o => addr_eqb (fst p) (o_addr o) && o_exists o) (e_accts c)) (accts (r_st r))
-  && list_eqb log_eqb (rev (logs (r_st r))) (e_logs c)
-  && N.eqb (refund (r_st r)) (e_refund c)
-  && N.eqb (r_burnt r) (e_burnt c).
+  match check_block G (i_prog c) (i_txs c) (e_txs c) (mkSt (i_accts c) [] 0 [] []) with
+  | Some s => list_eqb log_eqb (rev (logs s)) (e_logs c)
+  | None => false
+  end.
 
 Fixpoint mismatches_from (G : gastab) (i : N) (l : list case) : list N :=
   match l with
